@@ -11,6 +11,7 @@ mod pos;
 mod c17;
 mod c01;
 mod c03;
+mod c16;
 
 use util::*;
 
@@ -42,6 +43,7 @@ fn main() {
     "C02" => c01::run_c02(&mut out, &mut rng, thorough),
     "C03" => c03::run_c03(&mut out, &mut rng, thorough),
     "C19" => c03::run_c19(&mut out, &mut rng, thorough),
+    "C16" => c16::run(&mut out, &mut rng, thorough),
     "C08" => c07::run_c08(&mut out, &mut rng, thorough),
     _ => { eprintln!("unknown property {}", prop); std::process::exit(2); }
   }
